@@ -2,10 +2,13 @@
    One non-blocking evolve call as a transition system over n >= 1 ranks (Model/ParArch.v); a schedule is ANY list of ranks (ranks
    whose next call blocks are skipped) - so every theorem below holds for every interleaving, every number of ranks, every sync
    frequency >= 0, every target, every initial island ages >= 0.
-   Liveness is PARTIAL: progress (no reachable state is stuck) is proved; that a fair, non-flooding schedule reaches the final state
-   is not (tested only). Blocking mode sends no message (island.evolve(n) on every rank): nothing to interleave. *)
+   Liveness is PARTIAL: proved are (a) no reachable state is stuck and (b) from every reachable state SOME continuation lets every
+   rank return (a lexicographic measure decreases along a suitably chosen enabled step) - the protocol has no trap; that EVERY
+   fair schedule satisfying the property's pacing premise (helpers do not produce age updates faster than rank 0 drains them)
+   reaches the final state is not proved (tested only). Blocking mode sends no message (island.evolve(n) on every rank): nothing
+   to interleave. *)
 From Coq Require Import ZArith List Bool Lia.
-From Bingo Require Import Model.ParArch Proofs.ParArchProofs.
+From Bingo Require Import Model.ParArch Proofs.ParArchProofs Proofs.ParArchLive.
 Import ListNotations.
 
 Theorem C12_every_reachable_state_satisfies_the_protocol_invariant :
@@ -43,6 +46,16 @@ Theorem C12_reported_ages_are_lower_bounds :
   forall k v, (k < n)%nat -> nth k (total s) None = Some v -> (v <= age_of s k)%Z.
 Proof. intros n target s HI. split; [apply (i_mbox n target s HI)|apply (i_total n target s HI)]. Qed.
 Print Assumptions C12_reported_ages_are_lower_bounds.
+
+(* no trap: whatever the ranks have done so far (any schedule prefix), the call can still complete on every rank.
+   (sync >= 1: the effective sync frequency; arch_age >= 0: the archipelago's generational age) *)
+Theorem C12_from_every_reachable_state_the_call_can_still_complete_partial :
+  forall n sync target, (1 <= n)%nat -> (1 <= sync)%Z -> forall ages arch_age sched,
+  length ages = n -> (forall k, (k < n)%nat -> (0 <= nth k ages 0)%Z) ->
+  ((target <= arch_age)%Z -> (target * Z.of_nat n <= sum_list ages)%Z) -> (0 <= arch_age)%Z ->
+  exists more, final (run n sync target (sched ++ more) (init n target ages arch_age)) = true.
+Proof. intros n sync target Hn Hs ages arch_age sched. apply reachable_can_finish; assumption. Qed.
+Print Assumptions C12_from_every_reachable_state_the_call_can_still_complete_partial.
 
 (* non-vacuity: three ranks, a schedule that lets the helpers run ahead, ending in the final state *)
 Definition ex_sched : list nat :=
